@@ -153,3 +153,24 @@ def to_list(node):
     if node.is_leaf():
         return node.data
     return [to_list(c) for c in node.data]
+
+
+def install_node_format():
+    """f-strings containing a Node: CrossHair deep-realises every formatted
+    object (through Node.__getstate__, which asserts on symbolic leaf data)
+    and formats it with tracing off.  Keep the node symbolic and format it
+    with the real Node.__str__ under tracing."""
+    from crosshair.tracers import ResumedTracing, is_tracing
+    import ddsmt.nodes as N
+
+    def __ch_deep_realize__(self, memo):
+        return self
+
+    def __format__(self, spec):
+        if is_tracing():
+            return format(self.__str__(), spec)
+        with ResumedTracing():
+            return format(self.__str__(), spec)
+
+    N.Node.__ch_deep_realize__ = __ch_deep_realize__
+    N.Node.__format__ = __format__
